@@ -134,6 +134,7 @@ type caseA struct {
 	Op        string `json:"op"` // put | copy | mpu | delete | part
 	All       bool   `json:"all_points"`
 	Picks     []int  `json:"picks"`              // crash points tried when not All: pick % (number of points)
+	Bare      bool   `json:"bare,omitempty"`     // the PUT of the key after the restart carries no metadata, content type or tags: none may show afterwards
 	NoLater   bool   `json:"no_later,omitempty"` // no PUT + DELETE of the key after the restart: what the crash left is there when the bucket is emptied and deleted
 }
 
@@ -648,6 +649,32 @@ func execA(c caseA, each func(crashRun)) (n int, err error) {
 		}
 		// later operations on the key work
 		path := "/" + bkt + "/" + key
+		if c.Bare {
+			// first a PUT that gives the key nothing but bytes: it leaves the key with nothing but bytes, whatever the
+			// interrupted operation had already written down
+			if r, err := cl().Call("PUT", path, nil, nil, bodies[1]); err != nil || !r.OK() {
+				return fmt.Errorf("%s: after restart a PUT of the key fails: %v %v", where, r, err)
+			}
+			vb, err := look(cl(), bkt, key, false)
+			if err != nil {
+				return fmt.Errorf("SETUP: %v", err)
+			}
+			if vb.Get.Status != 200 || !bytes.Equal(vb.Get.Body, bodies[1]) {
+				return fmt.Errorf("%s: after restart a PUT without metadata does not read back (GET %d, %d bytes)", where, vb.Get.Status, len(vb.Get.Body))
+			}
+			for name, r := range map[string]*s3c.Resp{"GET": vb.Get, "HEAD": vb.Head} {
+				if got := r.Header.Get("x-amz-meta-w"); got != "" {
+					return fmt.Errorf("%s: after restart a PUT without metadata reads back with x-amz-meta-w %q (%s)", where, got, name)
+				}
+				if got := r.Header.Get("Content-Type"); strings.HasPrefix(got, "text/w") {
+					return fmt.Errorf("%s: after restart a PUT without a content type reads back with Content-Type %q (%s)", where, got, name)
+				}
+			}
+			var tg s3c.Tagging
+			if vb.Tag.Status == 200 && s3c.ParseXML(vb.Tag, &tg) == nil && len(tg.Tags) > 0 {
+				return fmt.Errorf("%s: after restart a PUT without tags reads back with tags %+v", where, tg.Tags)
+			}
+		}
 		if r, err := cl().Call("PUT", path, nil, metaOf(3), bodies[3]); err != nil || !r.OK() {
 			return fmt.Errorf("%s: after restart a PUT of the key fails: %v %v", where, r, err)
 		}
@@ -790,6 +817,7 @@ func TestC11A(t *testing.T) {
 			c.Versioned = true
 		}
 		c.NoLater = rapid.IntRange(0, 2).Draw(t, "no_later") == 0
+		c.Bare = !c.NoLater && rapid.Bool().Draw(t, "bare")
 		c.All = thorough
 		if !c.All {
 			c.Picks = rapid.SliceOfN(rapid.IntRange(0, 99), 1, 4).Draw(t, "picks")
